@@ -1,4 +1,4 @@
 SPECIFICATION Spec
-CONSTANTS MaxOps = 9 MaxNp = 2 MaxNd = 2 Bug = "none"
+CONSTANTS MaxOps = 11 MaxNp = 2 MaxNd = 2 Bug = "none"
 INVARIANTS InvValid InvReads InvSetter InvErr InvSetUp
 CHECK_DEADLOCK FALSE
